@@ -648,7 +648,7 @@ func concDoubleGC(c *Ctx, r *RNG, s *seqStore, cr *concRun, keys []string, newVa
 			}
 			done++
 		}
-		c.count(fmt.Sprintf("c17.storm.rounds-with-a-pass=%d", done/10*10))
+		c.count(fmt.Sprintf("c17.storm.rounds-with-a-pass-%d", done/10*10))
 		var nilGate chan struct{}
 		cr.stormGate.Store(nilGate)
 		c.line("gcreq n=%d storm=%d accepted=%d started=- maxconcurrent=%d", nreq, rounds, worst, maxI32(worst, atomic.LoadInt32(&cr.maxPasses)))
